@@ -3,6 +3,9 @@
 // kept symbolic, so agreement with the reference on all of {-1,0,1}^16 (resp. {-2..2}^9) is agreement as polynomials),
 // the same templates over the prime field GF(2^61-1) at fixed generic points, det(AB) = det(A)det(B), and the
 // float / double instantiations on the same grids: residual of M*inverse(M) - I within c*eps*kappa.
+// Extension after the coverage review: the same float/double inverses on matrices scaled by 2^+-40 (float 2^+-20) and on rigid /
+// similarity transforms with non-integer entries (an absolute threshold or an inexact cofactor would show); the symbolic observation
+// demands the VALUE q_ij/div = adj_ij/det at non-singular points and treats any other shape as "not observed", not as a violation.
 #include <asl/Matrix4.h>
 #include <asl/Matrix3.h>
 #include "c20_common.h"
@@ -14,6 +17,10 @@ uint64_t Fp::P = 2305843009213693951ULL, Fp::K = 1, Fp::divzero = 0;
 int64_t Sym::div = 0; int Sym::ndiv = 0, Sym::unsupported = 0;
 
 static int C_EVAL, C_DISTINCT, C_SING4, C_NONSING4, C_CORNER, C_SING3, C_NONSING3, C_SYMOK, C_SYMUNSUP, C_PAIRS3, C_PAIRS4, C_FP4, C_FP3, C_FPSING, C_DETZERO_PROD, C_FLT4, C_FLT3;
+// extension (coverage review): the symbolic observation accepts every "numerators times one quotient" form that has the right VALUE
+// (not only adjugate/determinant literally); float/double inverses of the same matrices scaled by 2^+-40 (float 2^+-20) and of
+// rigid / similarity transforms with non-integer entries
+static int C_SYMOTHER, W_SCALED4, W_SCALED3, W_RIGID4, W_RIGID3;
 static Reporter rep;
 static MaxTrack mx;
 static const double C_RESID = 8.0; // "small multiple": residual <= C_RESID * eps * kappa_inf
@@ -32,8 +39,10 @@ template <class T> static Matrix3_<T> mk3(const int* m) {
 // floating-point clause on an integer matrix with exact adjugate/determinant known:
 //   (1) inverse()*d rounds to the adjugate (the only inexact steps are 1/d and the scaling),
 //   (2) max |M*X - I| <= C_RESID * eps * kappa_inf(M), kappa from the exact inverse adj/d.
+// sc: the matrix handed to asl was M * 2^sc (exact), so its inverse is inverse(M) * 2^-sc (exact as well): the result is scaled back
+// and judged by the very same oracle; an absolute threshold inside inverse() (on the determinant, on a cofactor) would show
 template <class T, class MT>
-static void float_clause(const MT& X, const int* m, const int64_t* adj, int64_t d, int n, const char* tname, const std::string& kase) {
+static void float_clause(const MT& X, const int* m, const int64_t* adj, int64_t d, int n, const char* tname, const std::string& kase, int sc = 0) {
 	const long double eps = std::numeric_limits<T>::epsilon();
 	long double nm = 0, ni = 0;
 	for (int i = 0; i < n; i++) {
@@ -44,19 +53,43 @@ static void float_clause(const MT& X, const int* m, const int64_t* adj, int64_t 
 	}
 	long double kappa = nm * ni / fabsl((long double)d);
 	long double worst = 0;
+	long double xs[16]; const long double sf = sc ? ldexpl(1.0L, sc) : 1.0L; // multiplication by a power of two is exact
+	for (int i = 0; i < n; i++) for (int j = 0; j < n; j++) xs[i * n + j] = (long double)X(i, j) * sf;
 	for (int i = 0; i < n; i++)
 		for (int j = 0; j < n; j++) {
-			T x = X(i, j);
-			if (!(llroundl((long double)x * (long double)d) == adj[i * n + j]) || !(x == x))
-				rep.bad(std::string("inverse_entry_") + tname, fmt("%s inverse of %s: element (%d,%d) = %.9g, times det %lld is not the adjugate entry %lld", tname, mstr(m, n).c_str(), i, j, (double)x, (long long)d, (long long)adj[i * n + j]), kase);
+			long double x = xs[i * n + j];
+			if (!(x == x) || !(fabsl(x * (long double)d) < 1e15L) || !(llroundl(x * (long double)d) == adj[i * n + j]))
+				rep.bad(std::string("inverse_entry_") + tname, fmt("%s inverse of %s%s: element (%d,%d) = %.9Lg%s, times det %lld is not the adjugate entry %lld", tname, mstr(m, n).c_str(), sc ? fmt(" * 2^%d", sc).c_str() : "", i, j, x, sc ? " (scaled back)" : "", (long long)d, (long long)adj[i * n + j]), kase);
 			long double s = (i == j) ? -1.0L : 0.0L;
-			for (int k = 0; k < n; k++) s += (long double)m[i * n + k] * (long double)X(k, j);
+			for (int k = 0; k < n; k++) s += (long double)m[i * n + k] * xs[k * n + j];
 			if (fabsl(s) > worst || s != s) worst = (s != s) ? INFINITY : fabsl(s);
 		}
 	long double ratio = worst / (eps * kappa);
 	if (!(ratio <= C_RESID))
-		rep.bad(std::string("inverse_residual_") + tname, fmt("%s: max|M*inverse(M) - I| = %.3Lg = %.2Lf * eps * kappa (kappa_inf = %.3Lg) for M = %s", tname, worst, ratio, kappa, mstr(m, n).c_str()), kase);
-	mx.see_lazy(n == 4 ? (sizeof(T) == 4 ? "resid_over_eps_kappa.m4f" : "resid_over_eps_kappa.m4d") : (sizeof(T) == 4 ? "resid_over_eps_kappa.m3f" : "resid_over_eps_kappa.m3d"), ratio, [&] { return kase; });
+		rep.bad(std::string("inverse_residual_") + tname, fmt("%s: max|M*inverse(M) - I| = %.3Lg = %.2Lf * eps * kappa (kappa_inf = %.3Lg) for M = %s%s", tname, worst, ratio, kappa, mstr(m, n).c_str(), sc ? fmt(" * 2^%d", sc).c_str() : ""), kase);
+	if (!sc) mx.see_lazy(n == 4 ? (sizeof(T) == 4 ? "resid_over_eps_kappa.m4f" : "resid_over_eps_kappa.m4d") : (sizeof(T) == 4 ? "resid_over_eps_kappa.m3f" : "resid_over_eps_kappa.m3d"), ratio, [&] { return kase; });
+}
+
+template <class T> static Matrix4_<T> mk4s(const int* m, int sc) { T v[16]; const T f = (T)ldexp(1.0, sc); for (int i = 0; i < 16; i++) v[i] = (T)m[i] * f; return Matrix4_<T>(v); }
+template <class T> static Matrix3_<T> mk3s(const int* m, int sc) { T v[9]; const T f = (T)ldexp(1.0, sc); for (int i = 0; i < 9; i++) v[i] = (T)m[i] * f; return Matrix3_<T>(v); }
+
+// what inverse() computed with the quotient kept symbolic: every element is q_ij * (1/div). The statement asks for the VALUE
+// adj_ij/d, not for a shape: at a non-singular point q_ij/div must equal adj_ij/d (cross-multiplied, exact); the literal shape
+// (div = det, q = adjugate) is only counted, because it is what makes the observation meaningful at the singular points too.
+// Returns 0 ok literal, 1 ok other shape, 2 unsupported (nothing can be said here: the exact clause then rests on the GF(2^61-1)
+// points and the numeric oracle), 3 wrong value at element (*bi,*bj)
+template <class MS>
+static int judge_symbolic(const MS& Xs, const int64_t* adj, int64_t d, int n, int* bi, int* bj) {
+	if (Sym::unsupported || Sym::ndiv == 0) return 2;
+	bool literal = Sym::div == d;
+	for (int i = 0; i < n; i++) for (int j = 0; j < n; j++) if (Xs(i, j).p != 0 || Xs(i, j).q != adj[i * n + j]) literal = false;
+	if (literal) return 0;
+	if (d == 0) return 2; // a singular matrix has no inverse: no value to compare with, and not the literal shape
+	*bi = -1; *bj = -1;
+	if (Sym::div == 0) return 3; // divides by zero although the matrix is invertible
+	for (int i = 0; i < n; i++) for (int j = 0; j < n; j++)
+		if (Xs(i, j).p * Sym::div * d + Xs(i, j).q * d != adj[i * n + j] * Sym::div) { *bi = i; *bj = j; return 3; } // p + q/div == adj/d
+	return 1;
 }
 
 // fixed second factors for det(A*B) with A running over the whole grid
@@ -65,7 +98,7 @@ static const int B4[3][16] = {
 	{ 0, 1, 0, 0, 0, 0, 1, 0, 0, 0, 0, 1, 1, 0, 0, 0 },
 	{ 1, 2, 3, 4, 2, 3, 4, 1, 3, 4, 1, 2, 4, 1, 2, 4 } };
 
-static void check_m4(uint64_t idx, bool T) {
+static void check_m4(uint64_t idx, bool T, bool scaled) {
 	int m[16]; decode(idx, 3, 1, 16, m);
 	char kb[40]; snprintf(kb, sizeof kb, "m4:%llu", (unsigned long long)idx);
 	std::string kase(kb);
@@ -90,17 +123,10 @@ static void check_m4(uint64_t idx, bool T) {
 		Sym::reset();
 		Matrix4_<Sym> Ms = mk4<Sym>(m);
 		Matrix4_<Sym> Xs = Ms.inverse();
-		if (Sym::unsupported || Sym::ndiv == 0) vf::add(C_SYMUNSUP);
-		else {
-			vf::add(C_SYMOK);
-			if (Sym::div != d) rep.bad("inverse4_divisor", fmt("Matrix4::inverse() divides by %lld, determinant is %lld for M = %s", (long long)Sym::div, (long long)d, mstr(m, 4).c_str()), kase);
-			for (int i = 0; i < 4; i++)
-				for (int j = 0; j < 4; j++)
-					if (Xs(i, j).p != 0 || Xs(i, j).q != adj[i * 4 + j]) {
-						rep.bad("inverse4_cofactor", fmt("Matrix4::inverse() element (%d,%d) = %lld + %lld/d, adjugate entry is %lld for M = %s (det %lld)", i, j, (long long)Xs(i, j).p, (long long)Xs(i, j).q, (long long)adj[i * 4 + j], mstr(m, 4).c_str(), (long long)d), kase);
-						i = 4; break;
-					}
-		}
+		int bi = 0, bj = 0, v = judge_symbolic(Xs, adj, d, 4, &bi, &bj);
+		vf::add(v == 2 ? C_SYMUNSUP : C_SYMOK); if (v == 1) vf::add(C_SYMOTHER);
+		if (v == 3 && bi < 0) rep.bad("inverse4_divisor", fmt("Matrix4::inverse() divides by 0, determinant is %lld for M = %s", (long long)d, mstr(m, 4).c_str()), kase);
+		else if (v == 3) rep.bad("inverse4_cofactor", fmt("Matrix4::inverse() element (%d,%d) = %lld + %lld/%lld, exact inverse element is %lld/%lld for M = %s", bi, bj, (long long)Xs(bi, bj).p, (long long)Xs(bi, bj).q, (long long)Sym::div, (long long)adj[bi * 4 + bj], (long long)d, mstr(m, 4).c_str()), kase);
 	}
 	// --- det(A*B) = det(A) det(B) with asl's product (checked against the generic one)
 	for (int b = 0; b < (T ? 3 : 1); b++) {
@@ -121,6 +147,12 @@ static void check_m4(uint64_t idx, bool T) {
 	vf::add(C_FLT4, 2);
 	float_clause<double>(Md.inverse(), m, adj, d, 4, "Matrix4d", kase);
 	float_clause<float>(mk4<float>(m).inverse(), m, adj, d, 4, "Matrix4", kase);
+	if (scaled)
+		for (int sg = -1; sg <= 1; sg += 2) {
+			vf::add(W_SCALED4, 2);
+			float_clause<double>(mk4s<double>(m, 40 * sg).inverse(), m, adj, d, 4, "Matrix4d", kase, 40 * sg);
+			float_clause<float>(mk4s<float>(m, 20 * sg).inverse(), m, adj, d, 4, "Matrix4", kase, 20 * sg);
+		}
 }
 
 static void check_m3(int rad, uint64_t idx) {
@@ -142,23 +174,89 @@ static void check_m3(int rad, uint64_t idx) {
 	{
 		Sym::reset();
 		Matrix3_<Sym> Xs = mk3<Sym>(m).inverse();
-		if (Sym::unsupported || Sym::ndiv == 0) vf::add(C_SYMUNSUP);
-		else {
-			vf::add(C_SYMOK);
-			if (Sym::div != d) rep.bad("inverse3_divisor", fmt("Matrix3::inverse() divides by %lld, determinant is %lld for M = %s", (long long)Sym::div, (long long)d, mstr(m, 3).c_str()), kase);
-			for (int i = 0; i < 3; i++)
-				for (int j = 0; j < 3; j++)
-					if (Xs(i, j).p != 0 || Xs(i, j).q != adj[i * 3 + j]) {
-						rep.bad("inverse3_cofactor", fmt("Matrix3::inverse() element (%d,%d) = %lld + %lld/d, adjugate entry is %lld for M = %s (det %lld)", i, j, (long long)Xs(i, j).p, (long long)Xs(i, j).q, (long long)adj[i * 3 + j], mstr(m, 3).c_str(), (long long)d), kase);
-						i = 3; break;
-					}
-		}
+		int bi = 0, bj = 0, v = judge_symbolic(Xs, adj, d, 3, &bi, &bj);
+		vf::add(v == 2 ? C_SYMUNSUP : C_SYMOK); if (v == 1) vf::add(C_SYMOTHER);
+		if (v == 3 && bi < 0) rep.bad("inverse3_divisor", fmt("Matrix3::inverse() divides by 0, determinant is %lld for M = %s", (long long)d, mstr(m, 3).c_str()), kase);
+		else if (v == 3) rep.bad("inverse3_cofactor", fmt("Matrix3::inverse() element (%d,%d) = %lld + %lld/%lld, exact inverse element is %lld/%lld for M = %s", bi, bj, (long long)Xs(bi, bj).p, (long long)Xs(bi, bj).q, (long long)Sym::div, (long long)adj[bi * 3 + bj], (long long)d, mstr(m, 3).c_str()), kase);
 	}
 	if (d == 0) return;
 	vf::add(C_DISTINCT);
 	vf::add(C_FLT3, 2);
 	float_clause<double>(Md.inverse(), m, adj, d, 3, "Matrix3d", kase);
 	float_clause<float>(mk3<float>(m).inverse(), m, adj, d, 3, "Matrix3", kase);
+	for (int sg = -1; sg <= 1; sg += 2) {
+		vf::add(W_SCALED3, 2);
+		float_clause<double>(mk3s<double>(m, 40 * sg).inverse(), m, adj, d, 3, "Matrix3d", kase, 40 * sg);
+		float_clause<float>(mk3s<float>(m, 20 * sg).inverse(), m, adj, d, 3, "Matrix3", kase, 20 * sg);
+	}
+}
+
+// rigid and similarity transforms with non-integer entries. The matrix asl built (whatever its rounding) is the input: its exact
+// inverse comes from the long-double adjugate of these very entries, the oracle is the same residual bound.
+template <class T, class MT>
+static void float_general(const MT& M, int n, const char* tname, const std::string& what, const std::string& kase) {
+	const long double eps = std::numeric_limits<T>::epsilon();
+	long double m[16], adj[16], d;
+	for (int i = 0; i < n; i++) for (int j = 0; j < n; j++) m[i * n + j] = (long double)M(i, j);
+	d = n == 4 ? ref_adj4<long double>(m, adj) : ref_adj3<long double>(m, adj);
+	MT X = M.inverse();
+	vf::add(C_EVAL);
+	long double nm = 0, ni = 0, worst = 0;
+	for (int i = 0; i < n; i++) {
+		long double a = 0, b = 0;
+		for (int j = 0; j < n; j++) { a += fabsl(m[i * n + j]); b += fabsl(adj[i * n + j] / d); }
+		if (a > nm) nm = a;
+		if (b > ni) ni = b;
+	}
+	long double kappa = nm * ni;
+	for (int i = 0; i < n; i++)
+		for (int j = 0; j < n; j++) {
+			long double s = (i == j) ? -1.0L : 0.0L;
+			for (int k = 0; k < n; k++) s += m[i * n + k] * (long double)X(k, j);
+			if (fabsl(s) > worst || s != s) worst = (s != s) ? INFINITY : fabsl(s);
+		}
+	long double ratio = worst / (eps * kappa);
+	if (!(ratio <= C_RESID))
+		rep.bad(std::string("inverse_residual_") + tname, fmt("%s: max|M*inverse(M) - I| = %.3Lg = %.2Lf * eps * kappa (kappa_inf = %.3Lg) for M = %s", tname, worst, ratio, kappa, what.c_str()), kase);
+	mx.see_lazy(n == 4 ? (sizeof(T) == 4 ? "resid_over_eps_kappa.rigid4f" : "resid_over_eps_kappa.rigid4d") : (sizeof(T) == 4 ? "resid_over_eps_kappa.rigid3f" : "resid_over_eps_kappa.rigid3d"), ratio, [&] { return kase; });
+}
+static const char* RORD[3] = { "XYZ", "ZXZ", "YZX*" };
+// "rg4:<steps>:<ord>:<i>:<j>:<k>:<t>" — scale(2^s) * translate(t) * rotateE((i,j,k)*360/steps deg, order), t = all of {-2..2}^3 (index t),
+// s in {0, -40, +40} (float {0, -20, +20})
+template <class T>
+static void check_rigid4(int steps, int ord, int i, int j, int k, int t) {
+	std::string kase = fmt("rg4:%c:%d:%d:%d:%d:%d:%d", sizeof(T) == 4 ? 'f' : 'd', steps, ord, i, j, k, t);
+	vf::cur(kase);
+	const long double PIL = 3.14159265358979323846264338327950288L;
+	Vec3_<T> e((T)(2 * PIL * i / steps), (T)(2 * PIL * j / steps), (T)(2 * PIL * k / steps));
+	int tx = t / 25 - 2, ty = t / 5 % 5 - 2, tz = t % 5 - 2;
+	Matrix4_<T> M = Matrix4_<T>::translate((T)tx, (T)ty, (T)tz) * Matrix4_<T>::rotateE(e, RORD[ord]);
+	const char* tn = sizeof(T) == 4 ? "Matrix4" : "Matrix4d";
+	std::string what = fmt("translate(%d,%d,%d) * rotateE((%d,%d,%d)*360/%d deg, \"%s\")", tx, ty, tz, i, j, k, steps, RORD[ord]);
+	vf::add(W_RIGID4, 3); vf::add(C_DISTINCT);
+	float_general<T>(M, 4, tn, what, kase);
+	int sc = sizeof(T) == 4 ? 20 : 40;
+	for (int sg = -1; sg <= 1; sg += 2) {
+		Matrix4_<T> S = M; S *= (T)ldexp(1.0, sc * sg); // every element, the last row too: a general matrix at another scale
+		float_general<T>(S, 4, tn, what + fmt(" * 2^%d", sc * sg), kase);
+	}
+}
+// "rg3:<steps>:<i>:<t>" — 2D: translate(tx,ty) * rotate(i*360/steps deg) * scale(1, 3), all t in {-2..2}^2 (index t), the whole matrix
+// also multiplied by 2^-40 and 2^+40 (float 2^-20, 2^+20)
+template <class T>
+static void check_rigid3(int steps, int i, int t) {
+	std::string kase = fmt("rg3:%c:%d:%d:%d", sizeof(T) == 4 ? 'f' : 'd', steps, i, t);
+	vf::cur(kase);
+	const long double PIL = 3.14159265358979323846264338327950288L;
+	int tx = t / 5 - 2, ty = t % 5 - 2;
+	const char* tn = sizeof(T) == 4 ? "Matrix3" : "Matrix3d";
+	int sc = sizeof(T) == 4 ? 20 : 40;
+	for (int sg = -1; sg <= 1; sg++) {
+		Matrix3_<T> M = Matrix3_<T>::translate((T)tx, (T)ty) * Matrix3_<T>::rotate((T)(2 * PIL * i / steps)) * Matrix3_<T>::scale((T)1, (T)3);
+		M *= (T)ldexp(1.0, sc * sg);
+		vf::add(W_RIGID3); if (!sg) vf::add(C_DISTINCT);
+		float_general<T>(M, 3, tn, fmt("translate(%d,%d) * rotate(%d*360/%d deg) * scale(1, 3) * 2^%d", tx, ty, i, steps, sc * sg), kase);
+	}
 }
 
 // det(A*B) = det(A)*det(B) for one A and all B of the {-1,0,1} grid; the product is the harness' generic one
@@ -232,7 +330,10 @@ static void check_fp(uint64_t n) {
 
 static void run_case(const std::string& k) {
 	unsigned long long a = 0, b = 0; int r = 0;
-	if (sscanf(k.c_str(), "m4:%llu", &a) == 1) check_m4(a, true);
+	int s1 = 0, s2 = 0, s3 = 0, s4 = 0, s5 = 0, s6 = 0; char t = 0;
+	if (sscanf(k.c_str(), "m4:%llu", &a) == 1) check_m4(a, true, true);
+	else if (sscanf(k.c_str(), "rg4:%c:%d:%d:%d:%d:%d:%d", &t, &s1, &s2, &s3, &s4, &s5, &s6) == 7) { if (t == 'f') check_rigid4<float>(s1, s2, s3, s4, s5, s6); else check_rigid4<double>(s1, s2, s3, s4, s5, s6); }
+	else if (sscanf(k.c_str(), "rg3:%c:%d:%d:%d", &t, &s1, &s2, &s3) == 4) { if (t == 'f') check_rigid3<float>(s1, s2, s3); else check_rigid3<double>(s1, s2, s3); }
 	else if (sscanf(k.c_str(), "m3:%d:%llu", &r, &a) == 2) check_m3(r, a);
 	else if (sscanf(k.c_str(), "m3p:%llu:%llu", &a, &b) == 2) check_m3_pairs(a);
 	else if (sscanf(k.c_str(), "fp:%llu", &a) == 1) check_fp(a);
@@ -248,30 +349,54 @@ int main(int argc, char** argv) {
 	C_PAIRS3 = vf::counter("w.m3_det_product_pairs"); C_PAIRS4 = vf::counter("w.m4_det_product_pairs"); C_DETZERO_PROD = vf::counter("w.m3_det_product_zero");
 	C_FP4 = vf::counter("w.fp_points_4x4"); C_FP3 = vf::counter("w.fp_points_3x3"); C_FPSING = vf::counter("w.fp_singular_points");
 	C_FLT4 = vf::counter("w.m4_float_double_inverses"); C_FLT3 = vf::counter("w.m3_float_double_inverses");
+	C_SYMOTHER = vf::counter("symbolic_quotient_other_shape_same_value");
+	W_SCALED4 = vf::counter("w.m4_scaled_float_double_inverses"); W_SCALED3 = vf::counter("w.m3_scaled_float_double_inverses");
+	W_RIGID4 = vf::counter("w.m4_rigid_transform_inverses"); W_RIGID3 = vf::counter("w.m3_similarity_transform_inverses");
 	rep.c_supp = vf::counter("violations_not_listed_repeats");
 	if (vf::opt.replay) { vf::parallel(1, [&](uint64_t) { run_case(vf::opt.kase); }); return vf::finish(); }
 	bool T = vf::opt.thorough();
 
 	// (a) all 3^16 matrices over {-1,0,1}: blocks of 3^8 consecutive indices
 	bool capped = false;
+	Sections sec;
 	vf::parallel(6561, [&](uint64_t blk) {
 		if (vf::deadline_passed()) { if (!capped) { capped = true; vf::cap_hit("deadline inside the 3^16 grid"); } return; }
-		for (uint64_t i = blk * 6561; i < (blk + 1) * 6561; i++) check_m4(i, T);
+		// scaled copies (2^-40, 2^+40; float 2^-20, 2^+20) of the float/double inverses: quick on the complete sub-grid of affine matrices
+		// (last row 0 0 0 1 = last four base-3 digits 1 1 1 2 = index 41 mod 81: 3^12 matrices), thorough on all of them
+		for (uint64_t i = blk * 6561; i < (blk + 1) * 6561; i++) check_m4(i, T, T || i % 81 == 41);
 		mx.flush(); mx.m.clear();
 	}, 8);
+	sec.done("grid_4x4");
 	// (b) all 3x3 matrices over {-1,0,1} and over {-2..2}
 	vf::parallel(243, [&](uint64_t blk) { for (uint64_t i = blk * 81; i < (blk + 1) * 81; i++) check_m3(1, i); mx.flush(); mx.m.clear(); });
 	vf::parallel(3125, [&](uint64_t blk) { for (uint64_t i = blk * 625; i < (blk + 1) * 625; i++) check_m3(2, i); mx.flush(); mx.m.clear(); }, 4);
+	sec.done("grids_3x3");
+	// (b2) rigid transforms translate(t) * rotateE(grid) for all t in {-2..2}^3 and 2D similarity transforms, at three scales each
+	{
+		int rs = T ? 24 : 12;
+		vf::parallel((uint64_t)3 * rs * rs, [&](uint64_t it) {
+			int ord = (int)(it / (rs * rs)), i = (int)(it / rs % rs), j = (int)(it % rs);
+			for (int k = 0; k < rs; k++) for (int t = 0; t < 125; t++) { check_rigid4<double>(rs, ord, i, j, k, t); check_rigid4<float>(rs, ord, i, j, k, t); }
+			mx.flush(); mx.m.clear();
+		}, 4);
+		int r3 = T ? 360 : 96;
+		vf::parallel(r3, [&](uint64_t i) { for (int t = 0; t < 25; t++) { check_rigid3<double>(r3, (int)i, t); check_rigid3<float>(r3, (int)i, t); } mx.flush(); mx.m.clear(); }, 8);
+	}
+	sec.done("rigid_transforms");
 	// (c) det(AB) = det(A) det(B) for ALL pairs of 3x3 matrices over {-1,0,1} (3^18)
 	vf::parallel(19683, [&](uint64_t ia) { if (vf::deadline_passed()) { if (!capped) { capped = true; vf::cap_hit("deadline inside the 3x3 pair grid"); } return; } check_m3_pairs(ia); }, 16);
+	sec.done("pairs_3x3");
 	// (d) GF(2^61-1), fixed generic points (closes the "degree > 2 in one variable" gap of the grid argument)
 	uint64_t nfp = T ? 4000000 : 400000;
 	vf::parallel(nfp / 1000, [&](uint64_t blk) { for (uint64_t i = blk * 1000; i < (blk + 1) * 1000; i++) check_fp(i); }, 4);
 
+	sec.done("gf_points");
+	if (vf::get(C_SYMUNSUP)) vf::cap_hit(fmt("inverse() no longer has the form (numerators) * (one quotient) with adjugate and determinant at %llu grid points: there the exact clause is not observed symbolically (it rests on the GF(2^61-1) points and the float/double residuals)", (unsigned long long)vf::get(C_SYMUNSUP)));
 	mx.collect(); mx.publish();
 	vf::setinfo("grid_4x4", fmt("\"all %llu matrices over {-1,0,1}\"", (unsigned long long)N4));
 	vf::setinfo("residual_bound", fmt("\"max|M*inverse(M)-I| <= %.0f * eps * kappa_inf\"", C_RESID));
 	vf::sample("m4:21523360 = all-zero matrix ... m4:43046720 = all-one matrix: Matrix4_<Sym>::inverse() gives adjugate and divisor exactly, Matrix4d::det(), det(A*B4[k]); float/double inverse residual when det != 0");
+	vf::sample("rg4:d:12:0:1:2:3:37 = Matrix4d translate(-1,0,0) * rotateE((30,60,90) deg, \"XYZ\") and the same matrix times 2^-40 / 2^+40: max|M*inverse(M)-I| <= 8 eps kappa with the exact inverse from the long-double adjugate");
 	vf::sample("m3:2:<idx> = 3x3 over {-2..2}; m3p:<ia>:<ib> = det(A*B) for a pair over {-1,0,1}; fp:<n> = n-th fixed point of GF(2^61-1)^(4x4)");
 	return vf::finish();
 }
